@@ -16,7 +16,7 @@ pub enum Which {
     C06,
 }
 
-/// Word alphabet for the bounded-exhaustive small scope (23 words).
+/// Word alphabet for the bounded-exhaustive small scope (26 words).
 pub fn sigma() -> Vec<u32> {
     let mut s: Vec<u32> = vec![
         0, 1, 2, 3, 4, 8, 12, 16, 5, 0x7FFF_FFFC, 0x8000_0000, 0xFFFF_FFFC, 0xFFFF_FFFF, 19, 1024, 1025,
@@ -26,6 +26,10 @@ pub fn sigma() -> Vec<u32> {
     }
     s.push(u32::from_le_bytes(*b"XXXX")); // unknown tag
     s.push(u32::from_le_bytes(*b"NONB")); // NONC with one byte changed
+    // near-spellings of known tags: other padding byte, other case
+    s.push(u32::from_le_bytes(*b"PAD\x00"));
+    s.push(u32::from_le_bytes(*b"SIG\xff"));
+    s.push(u32::from_le_bytes(*b"nonc"));
     s
 }
 
@@ -273,6 +277,20 @@ fn family_deviations(ctx: &Ctx, which: Which, st: &Stats, two: bool) -> u64 {
             let orig = u32::from_le_bytes(base[4 * w..4 * w + 4].try_into().unwrap());
             for s in subs(orig) {
                 cases.push((w, s));
+            }
+        }
+        // every byte of every tag word replaced by 00 / ff / case-flipped / +1 (near-spellings)
+        let tag_base = if n == 0 { 0 } else { 1 + (n - 1) };
+        for w in tag_base..hw {
+            let orig = u32::from_le_bytes(base[4 * w..4 * w + 4].try_into().unwrap()).to_le_bytes();
+            for b in 0..4 {
+                for v in [0x00u8, 0xff, orig[b] ^ 0x20, orig[b].wrapping_add(1)] {
+                    if v != orig[b] {
+                        let mut t = orig;
+                        t[b] = v;
+                        cases.push((w, u32::from_le_bytes(t)));
+                    }
+                }
             }
         }
         total += cases.len() as u64;
@@ -595,7 +613,7 @@ pub fn run(ctx: &Ctx, which: Which) -> Result<(), String> {
     ctx.cov("caps_hit", json!(caps_hit));
     ctx.cov("exhaustive", json!(caps_hit.is_empty()));
     ctx.cov("bound", json!({"word_sequence_length": l, "alphabet_words": sigma().len(), "header_deviations": ctx.tier.pick(1, 2)}));
-    ctx.cov("rule", json!(format!("(b) all word sequences of length 1..={} over a {}-word alphabet hitting every guard (counts, offsets, overflowing/unaligned values, known/unknown/nested tags); all byte strings of length 0..={} over {{00,01,04,ff}}; (c) every header word (count, each offset, each tag) of 11 valid corpus messages (requests, replies, nested SREP/CERT/DELE, all-18-tags, 64 KiB) replaced by every alphabet word and orig+-4/+-1 (thorough: all pairs of header words); every truncation/extension length of the corpus; {} Distinct by construction (enumeration without repetition); non-trivial = passes the first length/alignment guard (len>=4, len%4==0) or is an API case with >=1 field.", l, sigma().len(), ctx.tier.pick(9, 11),
+    ctx.cov("rule", json!(format!("(b) all word sequences of length 1..={} over a {}-word alphabet hitting every guard (counts, offsets, overflowing/unaligned values, known/unknown/nested tags); all byte strings of length 0..={} over {{00,01,04,ff}}; (c) every header word (count, each offset, each tag) of 11 valid corpus messages (requests, replies, nested SREP/CERT/DELE, all-18-tags, 64 KiB) replaced by every alphabet word and orig+-4/+-1, every byte of every tag word replaced by 00/ff/case-flip/+1 (thorough: all pairs of header words); every truncation/extension length of the corpus; {} Distinct by construction (enumeration without repetition); non-trivial = passes the first length/alignment guard (len>=4, len%4==0) or is an API case with >=1 field.", l, sigma().len(), ctx.tier.pick(9, 11),
         if which == Which::C05 { "(a) all 2^18 tag subsets x value-length patterns through add_field/encode/encode_framed/from_bytes and all 18^2 add_field pairs." } else { "every length 0..=65536 x 4 fill patterns; nesting chains CERT(CERT(..)) and SREP(DELE(CERT(..))) of listed depths with valid and invalid innermost payloads, formatted in a child process." })));
     ctx.sample(json!({"family":"words","hex": crate::util::hex(&words_to_bytes(&[2, 4, u32::from_le_bytes(codec::tag("NONC")), u32::from_le_bytes(codec::tag("PAD")), 0]))}));
     ctx.sample(json!({"family":"words","hex": crate::util::hex(&words_to_bytes(&[1, u32::from_le_bytes(codec::tag("CERT")), 5]))}));
